@@ -35,7 +35,6 @@ package chain
 
 //@ func NewChainInfo(g) (i)
 //@   props C17 C07
-//@   requires g != nil && g.Scheme != nil && g.PublicKey != nil
 //@   modifies g.GenesisSeed
 //@   ensures [C17,C07:chain-info-reads-only-chain-parameters-not-membership] i != nil && i.ID == g.ID && i.Period == g.Period && i.Scheme == g.Scheme.Name && i.GenesisTime == g.GenesisTime && i.GenesisSeed == g.GenesisSeed && ref(i.PublicKey) == keyOf(g.PublicKey)
 
